@@ -9,3 +9,7 @@ TRUST = "go/types, go/ssa (x/tools v0.29.0), VTA call graph plus hand-added refl
 claim("C02",
       "Decides structural clauses only: wire type codes equal the Thrift table; every dispatch over wire.Type is exhaustive with a default; the ordered sequence of primitive writes/reads on every success path of each StreamWriter/StreamReader method (width, byte order, bound header field, extracted from SSA) equals the frozen Thrift binary-protocol row and writer/reader rows agree; wire.Value constructor/getter chain and per-type dispatch compose to the same rows; container framing, lazy-list header def-use, single write primitive, forward ForEach order, fixedWidth table. Does NOT decide value-level round-trip equality (NaN bits, large binaries at run time).",
       TRUST, "SSA success-path sequence extraction compared with a frozen protocol table; switch exhaustiveness; def-use", "DESIGN.md section 4 C02")
+
+claim("C03",
+      "Decides structural clauses on the decode scope D (computed per run from the gated call graph): every signed length read from the wire is sign-checked on all paths before any size/skip/bound use (interprocedural taint, dominance-by-edge sanitizers); every wire.Type dispatch in D is exhaustive with an error default; ReadBool accepts only 0/1; every loop is counted or input-consuming; every recursive cycle consumes input or is structural; a ledger of every potentially panicking SSA instruction in D, each discharged by a verified class; Skip consumes per wire type the same width sequence as ReadValue (fixedWidth table, header layouts, counted loops). Does NOT decide totality over all byte strings as such, stack depth on deep nesting, or prefix re-encoding equality.",
+      TRUST + "; io.Reader contract 0<=n<=len(p)", "taint/dominance over SSA, loop and recursion certificates, panic-site ledger, sequence comparison", "DESIGN.md section 4 C03")
